@@ -246,6 +246,21 @@ def corrupt1(blk, rng, nonul=False):
     return blk[:i] + blk[i + 1:]
 
 
+import re as _re
+_NUL_LASTCHUNK = _re.compile(rb"(?:^|\n)[ \t]*0+(?:[^0-9a-fA-F\n][^\n]*)?\x00[^\n]*\n|\r\n\r\n\x00|\n\n\x00")
+
+
+def outside_model(data):
+    """Inputs on which the C is read-boundary dependent in ways the byte automaton does not describe
+    (documented in Model/HttpChunkDecode.lean): a NUL byte inside a last-chunk line, or as the first
+    byte after an empty line, of a stream that may be decoded as chunked.  Conservative over-approximation."""
+    if b"\x00" not in data:
+        return False
+    if b"ransfer-" not in data and b"RANSFER-" not in data.upper():
+        return False
+    return _NUL_LASTCHUNK.search(data) is not None
+
+
 def gen_relay(ctx):
     rng = ctx.rng
     lines = []
@@ -260,6 +275,8 @@ def gen_relay(ctx):
         end = rng.choice(ENDS)
         if rng.random() < 0.3 and data:
             data = data[:rng.randrange(len(data) + 1)]           # backend stops early
+        if outside_model(data):
+            data = data.replace(b"\x00", b"\x01")
         if be == "fcgi":
             complete = rng.random() < 0.75
             data = fcgi_wrap(rng, data, end=complete)
